@@ -147,6 +147,8 @@ def run(ck):
     ck.run_rule("P8", "oct(v)[2:] is sign-safe", 1, rule_P8)
     ck.run_rule("C19.path", "emit_files hands the FIRST output to the CLI as the anchor of the listing name", 2, rule_paths)
     ck.run_rule("C11.R1k", "reader/writer agreement on the '.internal<n>.' key grammar", 3, c11.rule_R1k)
+    from . import c03 as _c03
+    ck.run_rule("C03.R7", "listed values of constants defined through forward references: the polynomial arithmetic behind them", 18, _c03.rule_R7)
     ck.run_rule("C02.R7w", "listed values are final: every symbol is evaluated before the listing", 1, c02.rule_closing_wait)
     ck.run_rule("C02.R1", "announced size == produced length: a listed label address is where the next byte lies", 40, c02.rule_R1)
     ck.run_rule("C02.R7", "labels of the second, third ... linked file: each file starts at base + lengths of ALL files before it", 3, c02.rule_R7)
